@@ -269,10 +269,10 @@ impl Function {
 
     pub fn right(string: Val, len: Val) -> Result<Val> {
         let len = usize::try_from(len)?;
+        let string = Rc::<str>::try_from(string)?;
         if len == 0 {
             return Ok(Val::String("".into()));
         }
-        let string = Rc::<str>::try_from(string)?;
         match string.char_indices().rev().nth(len - 1) {
             Some((pos, _ch)) => Ok(Val::String(string[pos..].into())),
             None => Ok(Val::String(string)),
